@@ -1005,6 +1005,129 @@ def eval_numeric(col, case):
     col.check(back_rows == rows, "numeric:roundtrip-changed:" + path, case, "%s: %r came back as %r" % (case["enc"], rows, back_rows))
 
 
+# ----------------------------------------------------------------------------------------------- contract: character matrices
+# Text held as a CHARACTER MATRIX: a 2-d container with one letter per cell and one sequence per row (an alignment / a batch of
+# equally long sequences, np.array([list(s) for s in seqs])) - numpy '<U1' / object / 'S1' arrays of shape (r, k) and a pandas
+# DataFrame of single letters - handed to as_encoded_array with an alphabet encoding, the base encoding or no target.  Every shape
+# r x k incl. the ones with an axis of length one or zero (a batch that happens to hold ONE sequence, a one-column alignment).
+# Oracle (plain Python): row i of the text is the concatenation of the cells of row i; accepted exactly when every cell is in the
+# alphabet, then r rows that read back as the (upper-cased) rows; a foreign cell anywhere -> encoding error.
+CHARMAT_KINDS = ("U", "O", "S", "frame")
+CHARMAT_TARGETS = ENC_NAMES + ["Base", None]
+
+
+def charmat_applicable(kind, rows, ncols=None):
+    allb = [b for r in rows for b in r]
+    if kind == "frame" and (ncols == 0 or (ncols is None and not allb and rows)):
+        return False                        # a DataFrame without columns holds no cells of any type (to_numpy gives a float array)
+    if kind in ("U", "S") and any(b == 0 for b in allb):
+        return False                        # numpy strips a NUL from a fixed-width cell: not the same input any more
+    if kind == "S" and any(b >= 256 for b in allb):
+        return False                        # bytes cells cannot hold such characters
+    return True
+
+
+def build_charmat(kind, rows, ncols):
+    """the r x ncols container, filled cell by cell (so that the shape is exactly (r, ncols) also when r or ncols is 0 or 1)"""
+    import numpy as np
+    dtype = {"U": "<U1", "S": "S1"}.get(kind, object)
+    m = np.empty((len(rows), ncols), dtype=dtype)
+    for i, r in enumerate(rows):
+        assert len(r) == ncols
+        for j, b in enumerate(r):
+            m[i, j] = bytes([b]) if kind == "S" else chr(b)
+    assert m.shape == (len(rows), ncols)
+    if kind == "frame":
+        import pandas as pd
+        return pd.DataFrame(m)
+    return m
+
+
+def charmat_shape_kind(r, k):
+    if r == 1 and k == 1:
+        return "one-cell"
+    if r == 1:
+        return "one-row"
+    if k == 1:
+        return "one-column"
+    if r == 0 or k == 0:
+        return "empty"
+    return "general"
+
+
+def _charmat_verdict(name, kind, rows, ncols):
+    """the contract on one matrix: None when it holds, else (failure class, message)"""
+    import bionumpy as bnp
+    from bionumpy.encodings.exceptions import EncodingError
+    alphabet = spec_alphabet(name) if name else None
+    enc = get_enc(name) if name else None
+    allb = [b for r in rows for b in r]
+    wide = any(b >= 256 for b in allb)
+    exp = [expected_text(r) if alphabet is not None else s_of(r) for r in rows]
+    ok_expected = all_valid(allb, alphabet) if alphabet is not None else not wide
+    descr = "%d x %d %s matrix %r -> %s" % (len(rows), ncols, {"U": "'<U1'", "O": "object", "S": "'S1'", "frame": "DataFrame"}[kind],
+                                          [s_of(r) for r in rows], name or "(no target)")
+    m = build_charmat(kind, rows, ncols)
+    try:
+        res = bnp.as_encoded_array(m) if enc is None else bnp.as_encoded_array(m, enc)
+    except Exception as e:
+        if ok_expected:
+            return ("rejects-alphabet-member:" + type(e).__name__, "%s raised %s: %s" % (descr, type(e).__name__, str(e)[:200]))
+        if not isinstance(e, (EncodingError,) + ((UnicodeEncodeError, OverflowError) if wide else ())):
+            return ("foreign:wrong-exception-type:" + type(e).__name__,
+                    "%s: foreign cell raised %s, not an encoding error: %s" % (descr, type(e).__name__, str(e)[:200]))
+        return None
+    lens = [len(r) for r in rows]
+    if not ok_expected:
+        return ("accepts-foreign", "%s was accepted (foreign %r) and reads back as %r"
+                % (descr, [b for b in allb if b >= 256] if alphabet is None else foreign_bytes(allb, alphabet),
+                   _safe(lambda: rows_of(res, lens))))
+    try:
+        got = rows_of(res, lens)
+    except Exception as e:
+        return ("result-not-readable:" + type(e).__name__, "%s: reading the result raised %s: %s" % (descr, type(e).__name__, str(e)[:200]))
+    h = how_differs(got, exp)
+    if h is not None:
+        return ("text-changed:" + h, "%s came back as %d row(s) %r, expected %d row(s) %r" % (descr, len(got), got[:8], len(exp), exp))
+    try:
+        dec = decoded_rows(enc if enc is not None else get_enc("Base"), res, lens)
+    except Exception as e:
+        return ("decode-raises:" + type(e).__name__, "%s: decode of the result raised %s: %s" % (descr, type(e).__name__, str(e)[:200]))
+    h = how_differs(dec, exp)
+    if h is not None:
+        return ("decode-differs:" + h, "%s decodes to %r, expected %r" % (descr, dec[:8], exp))
+    return None
+
+
+def eval_charmat(col, case):
+    """case: {"k":"charmat","enc": alphabet encoding name | "Base" | None,"kind": one of CHARMAT_KINDS,"rows":[[code points],..],"ncols":k}"""
+    name, kind, ncols = case["enc"], case["kind"], case["ncols"]
+    rows = [list(r) for r in case["rows"]]
+    alphabet = spec_alphabet(name) if name else None
+    allb = [b for r in rows for b in r]
+    ok_expected = all_valid(allb, alphabet) if alphabet is not None else not any(b >= 256 for b in allb)
+    shape = charmat_shape_kind(len(rows), ncols)
+    col.case(case, nontrivial=len(allb) > 0, contract="char-matrix:%s:%s" % (
+        "accepts+roundtrip" if ok_expected else "rejects-foreign:beyond-latin1" if any(b >= 256 for b in allb) else "rejects-foreign", shape))
+    v = _charmat_verdict(name, kind, rows, ncols)
+    if v is None:
+        return
+    if alphabet is not None and name in ALPHABETS:
+        # is it the matrix?  the same rows as a plain list of str
+        rec = _Recorder()
+        eval_enc(rec, {"k": "enc", "enc": name, "path": "list", "rows": rows})
+        if rec.failures:
+            for sig, c, msg in rec.failures:     # not a matter of the container: the plain class, the plain case
+                col.fail(sig, c, msg)
+            return
+    # is it this kind of matrix?  the same cells in the other containers
+    kinds = [k2 for k2 in CHARMAT_KINDS if charmat_applicable(k2, rows, ncols)]
+    same = [k2 for k2 in kinds if k2 == kind or (_safe(lambda: _charmat_verdict(name, k2, rows, ncols)) or ("",))[0] == v[0]]
+    scope = "every-container" if len(same) == len(kinds) > 1 else "only-" + "+".join(same)
+    col.fail("char-matrix:%s:%s:%s" % (v[0], shape, scope), dict(case, kind=same[0]),
+             v[1] + (" (the same rows as a list of str are handled correctly)" if alphabet is not None and name in ALPHABETS else ""))
+
+
 # ----------------------------------------------------------------------------------------------- contract: beyond 8 bits, other targets
 def eval_wide_text(col, case):
     """case: {"k":"wide_text","dst": None | "Base" | numeric name, "path": str-holding input kind, "rows":[[code points],..]}
@@ -1244,7 +1367,7 @@ def _cut(t, lens):
 
 
 EVAL = {"enc": eval_enc, "enc_after": eval_enc_after, "wide_text": eval_wide_text, "retarget": eval_retarget, "pieces": eval_pieces, "retarget_view": eval_retarget_view, "retarget_other": eval_retarget_other, "numeric": eval_numeric,
-        "observers": eval_observers, "layout": eval_layout}
+        "observers": eval_observers, "layout": eval_layout, "charmat": eval_charmat}
 
 
 def evaluate(col, case):
@@ -1951,6 +2074,109 @@ def gen_numeric(tier):
         yield {"k": "numeric", "enc": name, "path": "ndarray", "rows": [[lo, 255, 200, lo]]}
 
 
+def charmat_shapes(tier):
+    R, K = (5, 6) if tier == "thorough" else (4, 4)
+    return [(r, k) for r in range(R + 1) for k in range(K + 1)]
+
+
+CHARMAT_FOREIGN_SHAPES = {"quick": ((1, 1), (1, 3), (3, 1), (2, 2), (2, 3)),
+                          "thorough": ((1, 1), (1, 3), (3, 1), (2, 2), (2, 3), (3, 3), (1, 5), (4, 2))}
+
+
+def gen_charmat(tier):
+    # ---- 3c. character matrices (one letter per cell, one sequence per row): every shape r x k, axes of length 0 and 1 included
+    thorough = tier == "thorough"
+    low = lambda b: b + 32 if 65 <= b <= 90 else b
+    for name in CHARMAT_TARGETS:
+        alphabet = spec_alphabet(name) if name else None
+        ab = alphabet_bytes(alphabet or "ACGTN")
+        a0, a1, al = ab[0], ab[1], ab[-1]
+        mk = lambda kind, rows, k: {"k": "charmat", "enc": name, "kind": kind, "rows": rows, "ncols": k}
+        # (i) every shape x every container kind; content cycling through the alphabet, mixed case
+        for r, k in charmat_shapes(tier):
+            seen = []
+            for off in ((0, 1, len(ab) - 1) if thorough else (0,)):
+                for lm in ((1, 0, 2) if thorough else (1,)):
+                    rows = fill((k,) * r, ab, off, lm)
+                    if rows in seen:
+                        continue
+                    seen.append(rows)
+                    for kind in CHARMAT_KINDS:
+                        if charmat_applicable(kind, rows, k):
+                            yield mk(kind, rows, k)
+        # (ii) every byte: as the only cell, and inside a one-row / one-column / square matrix
+        #      (the base encoding / no target: text is ASCII, bytes 0..127)
+        #      quick: every byte as the only cell of an object matrix; the other kinds / the 1 x 3 matrix for the members, their
+        #      lower-case twins and the medium set of foreign bytes (bytes numerically related to the members)
+        every = range(256 if alphabet is not None else 128)
+        near = set(every) if thorough else set(case_twins(alphabet or "ACGTN")) | set(foreign_set(alphabet, "medium") if alphabet else ())
+        for b in every:
+            for kind in ("O", "U", "S") + (("frame",) if thorough else ()):
+                if (kind == "O" or b in near) and charmat_applicable(kind, [[b]]):
+                    yield mk(kind, [[b]], 1)
+            for kind in ("O", "U", "S") if thorough else ("O",):
+                if b in near and charmat_applicable(kind, [[b]]):
+                    yield mk(kind, [[a0, b, low(al)]], 3)
+            if thorough:
+                yield mk("O", [[a0], [b], [low(al)]], 1)
+                yield mk("O", [[a0, low(a1)], [b, al]], 2)
+        # (iii) every content over three letters (first, second, last member) for the matrices of up to 3 (thorough: 4) cells
+        sub = [a0, a1, al]
+        for r, k in charmat_shapes(tier):
+            if 1 <= r * k <= (4 if thorough else 3):
+                for content in itertools.product(sub, repeat=r * k):
+                    rows = [list(content[i * k:(i + 1) * k]) for i in range(r)]
+                    for kind in CHARMAT_KINDS if thorough else ("U", "O"):
+                        yield mk(kind, rows, k)
+        if alphabet is None:
+            continue
+        # (iv) one foreign cell at every position
+        small = foreign_set(alphabet, "small")
+        fs = small if thorough else small[:3] + small[-1:]
+        for r, k in CHARMAT_FOREIGN_SHAPES[tier]:
+            base = fill((k,) * r, ab, 0, 1)
+            for i in range(r):
+                for j in range(k):
+                    for f in fs:
+                        rows = [list(x) for x in base]
+                        rows[i][j] = f
+                        for kind in CHARMAT_KINDS if thorough or f == fs[0] else ("U", "O"):
+                            if charmat_applicable(kind, rows):
+                                yield mk(kind, rows, k)
+        # (v) a cell that is no byte at all: member / lower-case twin + a multiple of 256
+        pts = [cp for cp, _ in wide_points(alphabet, WIDE_OFFSETS["quick"] if thorough else (0x100,))] + list(WIDE_UNRELATED)
+        for cp in pts:
+            for kind in ("U", "O") + (("frame",) if thorough else ()):
+                yield mk(kind, [[cp]], 1)
+                yield mk(kind, [[a0, cp, low(al)]], 3)
+                if thorough:
+                    yield mk(kind, [[a0, low(a1)], [cp, al]], 2)
+                    yield mk(kind, [[a0], [cp]], 1)
+
+
+def sampled_charmat_cases(seed, n):
+    """above the bounds: larger matrices (1..8 rows x 1..12 columns, every third one with a single row or column), random letters in
+    both cases, sometimes one foreign cell"""
+    import random
+    rng = random.Random(seed * 86028121 + 600006)
+    for _ in range(n):
+        name = rng.choice(CHARMAT_TARGETS)
+        alphabet = spec_alphabet(name) if name else None
+        own = case_twins(alphabet or "ACGTN")
+        r, k = rng.randint(1, 8), rng.randint(1, 12)
+        u = rng.random()
+        if u < 0.2:
+            r = 1
+        elif u < 0.33:
+            k = 1
+        rows = [[rng.choice(own) for _ in range(k)] for _ in range(r)]
+        if alphabet is not None and rng.random() < 0.3:
+            rows[rng.randrange(r)][rng.randrange(k)] = rng.choice(foreign_set(alphabet, "medium"))
+        kind = rng.choice(CHARMAT_KINDS)
+        if charmat_applicable(kind, rows):
+            yield {"k": "charmat", "enc": name, "kind": kind, "rows": rows, "ncols": k}
+
+
 def layout_fill(n, ab, off, lower_mode):
     """n letters cycling through the alphabet from `off`, shifted by one after every full cycle (so rows as wide as the alphabet
     differ); lower_mode as in fill()"""
@@ -2180,7 +2406,7 @@ def sampled_layout_cases(seed, n):
 
 def gen_cases(tier, rng=None):
     """order: cheap and defect-prone parts first, so that a cut by the time budget loses the least"""
-    for g in (gen_bytes, gen_numeric, gen_wide, gen_history, gen_layout, gen_pieces, gen_retarget, gen_views, gen_strings, gen_lists):
+    for g in (gen_bytes, gen_numeric, gen_charmat, gen_wide, gen_history, gen_layout, gen_pieces, gen_retarget, gen_views, gen_strings, gen_lists):
         yield from g(tier)
 
 
@@ -2261,9 +2487,12 @@ def run(tier="quick", seed=0):
                     "memory layouts: every alphabet x 2-d shapes 1..4 x 1..4 (+ 3-d, 1-d) x row-/column-major fill x a family of "
                     "transposing / strided / reversed / windowed views, decode side (all observers) and encode side (text views, "
                     "one foreign byte at every position); "
+                    "character matrices (2-d numpy '<U1' / object / 'S1' arrays and DataFrames, one letter per cell): every shape r x k "
+                    "incl. one row / one column / one cell / empty x every alphabet, the base encoding and no target, every byte as a "
+                    "cell, one foreign cell at every position; "
                     "distinct = distinct (encoding, input kind, byte content[, view]); non-trivial = non-empty content "
                     "(views: and the source really was unflattened when handed over)",
-                    budget_s=(72 if tier == "quick" else 670))
+                    budget_s=(75 if tier == "quick" else 700))
     col.bounds = {
         "encodings": ENC_NAMES + ["DNAEncoding", "RNAENcoding", "fresh:acgtn (byte table only)"],
         "bytes": "0..255 at length 1 through %d input kinds" % (len(FLAT_PATHS) + len(RAGGED_PATHS)),
@@ -2312,6 +2541,27 @@ def run(tier="quick", seed=0):
             "oracle": "the call raises, or the result reads back as the texts of the pieces (spec alphabets), piece for piece",
         },
         "numeric": "every byte >= min_code for Quality(33), Digit(48), CigarLen(0)",
+        "char_matrices": {
+            "containers": "2-d numpy arrays with one letter per cell of dtype '<U1' / object / 'S1', pandas DataFrame of single letters; "
+                          "built cell by cell with the exact shape (r, k); handed to as_encoded_array",
+            "targets": ENC_NAMES + ["Base", "(none)"],
+            "(i) shapes": "every r x k with r in 0..%d, k in 0..%d (one row, one column, one cell, no row, no column included) x every "
+                          "container; content cycling through the alphabet %s" % (
+                              (5, 6, "from offsets 0, 1, last x {mixed, upper, lower} case") if tier == "thorough" else (4, 4, "in mixed case")),
+            "(ii) bytes": "every byte 0..255 (base encoding / no target: 0..127) as the only cell (1 x 1)%s" % (
+                " and inside a 1 x 3 / 3 x 1 / 2 x 2 matrix, every container" if tier == "thorough" else
+                " of an object matrix; members, lower-case twins and the medium foreign set also as '<U1' / 'S1' cell and inside a 1 x 3 matrix"),
+            "(iii) contents": "every content over {first, second, last member} for every shape of 1..%d cells" % (4 if tier == "thorough" else 3),
+            "(iv) foreign": "one foreign byte (%s) at every cell of the shapes %r" % (
+                "small set" if tier == "thorough" else "4 of the small set", CHARMAT_FOREIGN_SHAPES[tier]),
+            "(v) beyond 8 bits": "member / twin + %s and the unrelated characters as a cell of a 1 x 1 / 1 x 3%s matrix ('<U1', object%s)" % (
+                ([hex(o) for o in WIDE_OFFSETS["quick"]], " / 2 x 2 / 2 x 1", ", DataFrame") if tier == "thorough" else (["0x100"], "", "")),
+            "oracle": "row i of the text = concatenation of the cells of row i (upper-cased for alphabet targets); accepted exactly when "
+                      "every cell is in the alphabet; r rows read back through tolist / x[i] and enc.decode",
+            "classification": "a failure the same rows show as a plain list of str too -> the plain encode signature; a failure every "
+                              "container kind shows -> ..:every-container, else ..:only-<kinds that show it>; the shape class (one-row, one-column, "
+                              "one-cell, empty, general) is part of the signature",
+        },
         "layout": {
             "encodings": ENC_NAMES,
             "shapes": "2-d: every r x c with r, c in 1..4%s; 3-d: %s; 1-d: lengths %s (windows of every width); zero-size: (0,3) (3,0) "
@@ -2372,7 +2622,7 @@ def run(tier="quick", seed=0):
                    "random character beyond 8 bits; random histories of 1..7 encodings (repeats, user-made alphabets of random "
                    "letters) followed by text with a character of an alphabet used before; random layouts: arrays of 1..3 axes of "
                    "length 1..6, random fill order and content, chains of 1..4 random steps (T, subscripts, windows, reshape, ravel, copy), "
-                   "decode and encode side",
+                   "decode and encode side; random character matrices of 1..8 x 1..12 cells (every third with one row or one column)",
     }
     for case in gen_cases(tier, col.rng):
         evaluate(col, case)
@@ -2384,6 +2634,10 @@ def run(tier="quick", seed=0):
             evaluate(col, case)
             if time.time() - col.t0 > col.budget_s:
                 break
+        for case in sampled_charmat_cases(seed, 150 if tier == "quick" else 3000):
+            if time.time() - col.t0 > col.budget_s:
+                break
+            evaluate(col, case)
         for case in sampled_piece_cases(seed, 300 if tier == "quick" else 5000):
             if time.time() - col.t0 > col.budget_s:
                 break
